@@ -75,6 +75,9 @@ class MCNP_Problem:
             cells = Cells(cells)
         if cells is self.cells:
             return
+        # a Cells collection that was handed over can have become inconsistent since it was built
+        # (its members renumbered): check it before the old cells are thrown away
+        Cells(list(cells))
         self.cells.clear()
         self.cells.extend(cells)
 
